@@ -95,6 +95,23 @@ pub fn round_keys_obs(key: &[u8; 16], obs: Option<Obs>) -> [u32; 32] {
     rk
 }
 
+/// the round function's T = L(tau(.)) and the key schedule's T' = L'(tau(.)), exposed for crafting inputs whose state or
+/// schedule repeats a word
+pub fn t_data(a: u32) -> u32 {
+    let b = tau(a);
+    b ^ b.rotate_left(2) ^ b.rotate_left(10) ^ b.rotate_left(18) ^ b.rotate_left(24)
+}
+pub fn t_key(a: u32) -> u32 {
+    let b = tau(a);
+    b ^ b.rotate_left(13) ^ b.rotate_left(23)
+}
+pub fn fk(i: usize) -> u32 {
+    FK[i]
+}
+pub fn ck_const(i: usize) -> u32 {
+    ck(i)
+}
+
 pub fn round_keys(key: &[u8; 16]) -> [u32; 32] {
     round_keys_obs(key, None)
 }
